@@ -349,6 +349,22 @@ func runProgram[T Num](c *core.Ctx, b *Backend[T], p *AProg, sides []*realSide[T
 					if g := v.Minimum(); !eqT(g, mn) {
 						viol(o.prop+"minimum", "on %s: Minimum()=%v, expected %v", side.name, g, mn)
 					}
+				case "abortedsweep":
+					if b.ApplyFunc1 == nil {
+						return
+					}
+					c.Tag("history:aborted-sweep")
+					n := 0
+					func() {
+						defer func() { recover() }()
+						b.ApplyFunc1(v, v, func(x T) T {
+							n++
+							if n > op.St {
+								panic("callback gives up")
+							}
+							return x
+						})
+					}()
 				case "bulk":
 					if b.Scale == nil {
 						return
